@@ -471,11 +471,27 @@ pub fn endurance(rep: &mut Report, tier: &str, seed: u64, prop: &'static str) {
     let tab = k(Key::Tab);
     let probe: Vec<Ev> = vec![left.clone(), right.clone(), ch('c'), left.clone(), bs.clone(), right.clone(), ch('é'), lf.clone(), up.clone(), lf.clone()];
     // monotone runs, each after a small history exists and a line is being edited, each followed by the probe
-    let monotone = |label: &str, pat: &[Ev]| -> (String, Vec<Ev>) {
+    let mut marks: Vec<(String, Vec<Ev>, Vec<usize>)> = vec![];
+    let mut monotone = |label: &str, pat: &[Ev]| -> (String, Vec<Ev>) {
         let mut p = submit("ab");
         p.extend(submit("b"));
         p.extend(type_str("a"));
+        let base = p.len();
         p.extend(cycle(pat, n / pat.len()));
+        // the states after 2^e + d keys of the run (e = 7..=17, |d| <= 4) are starts of a depth-3 search over a
+        // probing alphabet: a counter that wrapped exactly there is looked at by Left / Right / typing / Enter
+        let mut idx: Vec<usize> = vec![];
+        for e in 7..=18u32 {
+            for d in -4i64..=4 {
+                let q = (1i64 << e) + d;
+                if q > 0 && (q as usize) <= n / pat.len() * pat.len() {
+                    idx.push(base + q as usize - 1);
+                }
+            }
+        }
+        idx.sort();
+        idx.dedup();
+        marks.push((format!("'ab' Enter 'b' Enter 'a', then [{}] repeated", label), p.clone(), idx));
         p.extend(probe.clone());
         (format!("'ab' Enter 'b' Enter 'a', then [{}] x{}, then a probing tail", label, n / pat.len()), p)
     };
@@ -538,8 +554,26 @@ pub fn endurance(rep: &mut Report, tier: &str, seed: u64, prop: &'static str) {
     let mut cfg = base_cfg(prop, format!("endurance cb={} hb={}: {} long sessions of repeated keys and cycles, {} keys in all, every step under the monitors", cb, hb, paths.len(), total), cb, hb, alphabet, mon);
     cfg.prefilled = paths;
     if prop == "C05" || prop == "C10" || prop == "C01" {
-        run_raw(rep, cfg, &dcaps, seed);
+        run_raw(rep, cfg.clone(), &dcaps, seed);
     } else {
-        run_cmd4(rep, cfg, &dcaps, seed);
+        run_cmd4(rep, cfg.clone(), &dcaps, seed);
+    }
+    // second run: the monotone sessions again, searched to depth 3 from the states at 2^e + d repetitions
+    let mut d3 = caps(tier);
+    d3.max_depth = 3;
+    let nmarks: usize = marks.iter().map(|(_, _, i)| i.len()).sum();
+    cfg.label = format!("endurance cb={} hb={}: depth-3 search from {} states reached after 2^e + d repetitions (e = 7..18, |d| <= 4) of {} monotone runs", cb, hb, nmarks, marks.len());
+    cfg.prefilled = vec![];
+    cfg.prefilled_marks = marks;
+    cfg.events = match prop {
+        "C10" => vec![ch('c'), k(Key::Bs), k(Key::Lf), k(Key::Up), k(Key::Down), k(Key::Left)],
+        "C01" => vec![ch('c'), ch(' '), k(Key::Bs), k(Key::Left), k(Key::Right), k(Key::Lf), k(Key::Up)],
+        "C05" => vec![ch('c'), ch('é'), k(Key::Bs), k(Key::Left), k(Key::Right), k(Key::Up)],
+        _ => vec![ch('c'), k(Key::Bs), k(Key::Left), k(Key::Right), k(Key::Up), k(Key::Lf), wr("x")],
+    };
+    if prop == "C05" || prop == "C10" || prop == "C01" {
+        run_raw(rep, cfg, &d3, seed);
+    } else {
+        run_cmd4(rep, cfg, &d3, seed);
     }
 }
